@@ -5,6 +5,14 @@ PY_SUBSET = ('Python semantics of the executed subset as encoded by pyvc.symexec
              'sequences as len/at theories, path-by-path execution, loops cut at invariants)')
 
 PROPS = {
+    'C20': {
+        'level': 'other',
+        'proof': [('contracts.nmtable', None), ('contracts.intmath', None)],
+        'assumptions': [PY_SUBSET, FLOAT_AS_REAL],
+        'explanation': 'selection of the NONMEM-designated rows (special iteration codes, documented fallbacks) '
+                       'by the ExtTable accessors and triangular_root proved; the fixed-width parsing itself, '
+                       'cov/cor/coi relations and the results JSON round trip are bounded checks',
+    },
     'C11': {
         'level': 'other',
         'proof': [('contracts.rvs', None)],
